@@ -3,7 +3,9 @@ from hypothesis import strategies as st
 from mitmproxy.http import HTTPFlow
 
 from hippolyzer.lib.base import llsd
+from hippolyzer.lib.base.test_utils import MockTransport
 from hippolyzer.lib.proxy.caps import CapType, is_asset_server_cap_name
+from hippolyzer.lib.proxy.circuit import ProxiedCircuit
 
 from vlib.http_harness import HttpWorld
 from vlib.runner import hyp_run
@@ -21,7 +23,7 @@ ASSUMPTIONS = [
     "asset caps (GetMesh*, GetTexture*, ViewerAsset*) resolve without region/session unless registered as wrappers, as the code documents",
 ]
 FLOORS = {"quick": {"histories": 600, "lookups": 8000, "seed_flows": 1500, "temporary_resolved": 150, "proxy_cap_twice": 150,
-                    "regrant_same_name": 300, "ambiguous_lookups": 50}}
+                    "regrant_same_name": 300, "ambiguous_lookups": 50, "circuit_torn_down": 40}}
 MANIFEST = {
     "text": "Model-based testing of the caps registry through its public entry points and real Seed flows: after every operation "
             "every URL ever granted is resolved (with suffixes) and every name looked up, and compared with a reference model of "
@@ -100,7 +102,9 @@ class Run:
 
     def fresh_url(self, s, r):
         self.url_n += 1
-        return "https://sim-%d-%d.example.com:12043/cap/%08x-aaaa-bbbb-cccc-%012x" % (s, r, self.url_n, self.url_n * 7919)
+        base = "https://sim-%d-%d.example.com:12043/cap/%08x-aaaa-bbbb-cccc-%012x" % (s, r, self.url_n, self.url_n * 7919)
+        # other grids hand out URLs that end in a delimiter themselves (".../CAPS/<uuid>/") or carry a query
+        return base + {3: "/", 4: "?token=%d" % self.url_n}.get(self.url_n % 6, "")
 
     def region(self, s, r):
         return self.w.sessions[s].regions[r]
@@ -127,7 +131,7 @@ class Run:
             for e in lst:
                 if e["type"] == CapType.TEMPORARY:
                     continue
-                for suffix in ("", "/x", "?a=b"):
+                for suffix in ("", "/x", "?a=b", "item", "&p=2"):
                     url = e["url"] + suffix
                     self.count("lookups")
                     out.extend(self.check_lookup(url))
@@ -325,6 +329,17 @@ class Run:
                     out.append(("proxy-cap:new-url-on-reregistration", "register_proxy_cap(%s) twice in a row: %s then %s" % (name, url, url2)))
                     m.add(key, name, CapType.PROXY_ONLY, url2)
             self.nontrivial = True
+        elif k == "circuit":
+            # the simulator connection of a region comes up / is torn down (DisableSimulator, CloseCircuit): its caps stay what they were
+            _, s, r, up = op
+            region = self.region(s, r)
+            if up:
+                region.circuit = ProxiedCircuit(("127.0.0.1", 1), region.circuit_addr, MockTransport())
+                self.count("circuit_opened")
+            elif region.circuit is not None:
+                region.mark_dead()
+                self.count("circuit_torn_down")
+                self.nontrivial = True
         elif k == "reseed":
             # the region is announced again (teleport back, crossing, EstablishAgentCommunication) with a seed capability
             _, s, r, same = op
@@ -367,8 +382,9 @@ class Run:
 
 
 OP = st.one_of(
-    st.tuples(st.just("seed"), st.integers(0, 1), st.integers(0, 1), st.lists(st.sampled_from(NAMES), min_size=1, max_size=6, unique=True),
+    st.tuples(st.just("seed"), st.integers(0, 1), st.integers(0, 1), st.lists(st.sampled_from(NAMES), min_size=0, max_size=6, unique=True),
               st.booleans(), st.booleans(), st.lists(st.sampled_from(PROXY_NAMES), max_size=3, unique=True), st.booleans()),
+    st.tuples(st.just("circuit"), st.integers(0, 1), st.integers(0, 1), st.booleans()),
     st.tuples(st.just("register"), st.integers(0, 1), st.integers(0, 1), st.sampled_from(["UploadBakedTexture", "NewFileAgentInventory", "Custom"]),
               st.booleans(), st.integers(0, 9).map(lambda i: i == 0)),
     st.tuples(st.just("proxy"), st.integers(0, 1), st.integers(0, 1), st.sampled_from(PROXY_NAMES), st.booleans()),
